@@ -10,8 +10,10 @@ def _add(total, x, like):
 
 @overload(_add)
 def _add_overload(total, x, like):
-    if isinstance(x, (types.Integer, types.Boolean)) and isinstance(
-        like, types.Integer
+    if (
+        isinstance(total, (types.Integer, types.Boolean))
+        and isinstance(x, (types.Integer, types.Boolean))
+        and isinstance(like, types.Integer)
     ):
         # integers into integers: add in the output dtype. Mixed operands such
         # as uint64 + int64 would otherwise be unified to float64 by numba,
@@ -27,6 +29,29 @@ def _add_overload(total, x, like):
         # truncating or rounding every term to the output dtype first
         def impl(total, x, like):
             return total + x
+
+    return impl
+
+
+def _start(offset, like):
+    """initial total for `cumsum`; `like` is a scalar of the output dtype."""
+    raise NotImplementedError
+
+
+@overload(_start)
+def _start_overload(offset, like):
+    if isinstance(offset, types.Float) and isinstance(like, types.Integer):
+        # a fractional offset into an integer output: keep it, so that the
+        # partial sums start from the offset and are converted on the store
+        # (same reasoning as for float terms in `_add`)
+        def impl(offset, like):
+            return offset
+
+    else:
+        T = like
+
+        def impl(offset, like):
+            return T(offset)
 
     return impl
 
@@ -73,12 +98,12 @@ def cumsum(arr, out, initial=False, final=True, offset=0):
         raise ValueError('Output array has incorrect length')
 
     dtype = out.dtype.type
-    total = dtype(offset)
+    like = dtype(0)
+    total = _start(offset, like)
 
     if initial and N_out > 0:
         out[0] = total
 
-    like = dtype(0)
     for i in range(N - 1):
         total = _add(total, arr[i], like)
         out[i + int(initial)] = total
